@@ -21,11 +21,11 @@ package main
 //   hint           none | [/a] -> N3 | [/app] -> L5 | [/localhost/h] | [/r/s] in region /r |
 //                  [/zz] no route besides the default | [/a,/r/s] | [/r/s,/a]
 //   NextHopFaceId  absent | L5 | N2
-//   HopLimit       absent | 1 | 255          | absent | 0 | 1 | 2 | 255
+//   HopLimit       absent | 0 | 1 | 255      | absent | 0 | 1 | 2 | 255
 //   Lifetime       absent | 0 | 60 s         | absent | 0 | 10 ms | 60 s
 //   PitToken       absent | 6 bytes in this forwarder's own format | + 4 bytes
 //   Nonce          present                   | present | absent
-// quick 2x2x3x3x8x3x3x3x2 = 46656 Interests, thorough 2x2x3x12x8x3x5x4x3x2 = 414720.
+// quick 2x2x3x3x8x3x4x3x2 = 20736 Interests, thorough 2x2x3x12x8x3x5x4x3x2 = 414720.
 
 import (
 	"fmt"
@@ -60,7 +60,7 @@ func l3SweepPass(rep *report.Reporter, cov report.Coverage) {
 	}
 	hints := [][]string{nil, {"/a"}, {"/app"}, {"/localhost/h"}, {"/r/s"}, {"/zz"}, {"/a", "/r/s"}, {"/r/s", "/a"}}
 	nhs := []uint64{0, fwsim.L5, fwsim.N2}
-	hls := []int{-1, 1, 255}
+	hls := []int{-1, 0, 1, 255}
 	lts := []time.Duration{-1, 0, 60 * time.Second}
 	toks := 2
 	nonces := 1
